@@ -8,14 +8,19 @@ no longer be located is reported in anchors_missing (a broken tie for the
 properties that use it); the previous value is NOT reused — the definition is
 emitted as an empty/zero value so dependent lemmas fail visibly.
 
-Pure stdlib; anchors are located by item name and brace matching, not by line.
+Pure stdlib; anchors are located by item name and brace matching, not by line, and are read with the syntax-aware
+helpers below (DESIGN.md §13): the generated value depends on what the source DENOTES (the byte set of a predicate, the
+arms of a match, the value of a literal), not on how it is spelled.  tools/translator_selftest.py checks both directions:
+a behaviour-preserving patch must leave Generated.v byte-identical, a list of one-token behaviour changes must not.
 """
 import json, os, re, sys, hashlib
 
 REPO = os.environ.get("VERIF_REPO", "/repo")
 HERE = os.path.dirname(os.path.abspath(__file__))
-OUT = os.path.join(HERE, "..", "coq", "theories", "Gen", "Generated.v")
-MAP = os.path.join(HERE, "..", "coq", "theories", "Gen", "generated_map.json")
+# VERIF_GEN_OUT=<dir> redirects both outputs (used by tools/translator_selftest.py, which must not disturb the tree)
+_OUTDIR = os.environ.get("VERIF_GEN_OUT") or os.path.join(HERE, "..", "coq", "theories", "Gen")
+OUT = os.path.join(_OUTDIR, "Generated.v")
+MAP = os.path.join(_OUTDIR, "generated_map.json")
 
 
 def read(rel):
@@ -93,44 +98,846 @@ ESC = {"n": 10, "r": 13, "t": 9, "0": 0, "\\": 92, "'": 39, '"': 34}
 
 
 def lit(tok):
-    """value of a Rust integer / byte literal token"""
-    tok = tok.strip()
+    """value of a Rust integer / byte literal token (alias of int_value, kept for the area extractors)"""
+    return int_value(tok)
+
+
+def lits(s):
+    return [int_value(t) for t in re.findall(BYTE, s)]
+
+
+def alt_set(pat):
+    """'0 | 9 | b'a' ..= b'c'' -> list of byte values in source order (see pattern_set for the set)"""
+    vals = []
+    for part in split_top(pat, "|"):
+        m = re.fullmatch(r"(" + BYTE + r")\s*\.\.=\s*(" + BYTE + r")", part)
+        if m:
+            vals.extend(range(int_value(m.group(1)), int_value(m.group(2)) + 1))
+        else:
+            vals.append(int_value(part))
+    return vals
+
+
+# ======================================================================================================================
+# Shared, syntax-aware helpers (DESIGN.md §13).  The area extractors use these instead of ad-hoc regular expressions so
+# that a behaviour-preserving re-spelling of the Rust source (other literal spelling, `matches!` <-> `match`, reordered
+# disjoint arms, a predicate moved into a private helper fn, a table moved into a `const`, a renamed local, an expression
+# split into `let tmp = …;` + use) yields the same value, while every behaviour-changing edit of the same spot still does
+# not: the helpers compute the VALUE / the SET / the ARMS that the source denotes and raise when they cannot.
+
+def skip_literal(s, i):
+    """if a string / byte-string / raw-string / char / byte literal starts at s[i]: index just after it, else None"""
+    n = len(s)
+    m = re.compile(r'b?r(#*)"').match(s, i)
+    if m and (i == 0 or not (s[i - 1].isalnum() or s[i - 1] == "_")):
+        end = s.find('"' + m.group(1), m.end())
+        return n if end < 0 else end + 1 + len(m.group(1))
+    if s.startswith('"', i) or (s.startswith('b"', i) and (i == 0 or not (s[i - 1].isalnum() or s[i - 1] == "_"))):
+        j = i + (2 if s[i] == "b" else 1)
+        while j < n and s[j] != '"':
+            if s[j] == "\\":
+                j += 1
+            j += 1
+        return j + 1
+    k = i + 1 if s.startswith("b'", i) and (i == 0 or not (s[i - 1].isalnum() or s[i - 1] == "_")) else i
+    if s.startswith("'", k):
+        m = re.compile(r"'(?:\\x[0-9a-fA-F]{2}|\\u\{[0-9a-fA-F]+\}|\\.|[^'\\])'").match(s, k)
+        if m:
+            return m.end()
+    return None
+
+
+OPEN, CLOSE = "([{", ")]}"
+
+
+def close_of(s, i):
+    """index of the bracket closing the one at s[i] (strings and char literals skipped)"""
+    depth, j, n = 0, i, len(s)
+    while j < n:
+        k = skip_literal(s, j)
+        if k is not None:
+            j = k
+            continue
+        c = s[j]
+        if c in OPEN:
+            depth += 1
+        elif c in CLOSE:
+            depth -= 1
+            if depth == 0:
+                return j
+        j += 1
+    raise KeyError("unbalanced bracket")
+
+
+def split_top(s, sep=","):
+    """split at top-level occurrences of sep (a string, e.g. ',', '|', '||', '=>') outside brackets and literals;
+    '|' does not split '||'.  Empty pieces are dropped."""
+    out, depth, cur, i, n = [], 0, 0, 0, len(s)
+    while i < n:
+        k = skip_literal(s, i)
+        if k is not None:
+            i = k
+            continue
+        c = s[i]
+        if c in OPEN:
+            depth += 1
+        elif c in CLOSE:
+            depth -= 1
+        elif depth == 0 and s.startswith(sep, i):
+            if sep == "|" and (s.startswith("||", i) or (i > 0 and s[i - 1] == "|")):
+                i += 1
+                continue
+            out.append(s[cur:i])
+            i += len(sep)
+            cur = i
+            continue
+        i += 1
+    out.append(s[cur:])
+    return [x.strip() for x in out if x.strip()]
+
+
+def strip_parens(e):
+    e = e.strip()
+    while e.startswith("(") and close_of(e, 0) == len(e) - 1:
+        e = e[1:-1].strip()
+    return e
+
+
+def strip_block(e):
+    """`{ expr }` -> `expr` (only when the braces enclose everything)"""
+    e = e.strip()
+    while e.startswith("{") and close_of(e, 0) == len(e) - 1:
+        e = e[1:-1].strip()
+    return e
+
+
+INT_SUFFIX = r"(?:_?(?:u8|u16|u32|u64|u128|usize|i8|i16|i32|i64|i128|isize))?"
+# any Rust spelling of an integer / byte literal token
+BYTE = (r"(?:b'(?:\\x[0-9a-fA-F]{2}|\\.|[^'\\])'|0x[0-9a-fA-F_]+" + INT_SUFFIX + r"|0o[0-7_]+" + INT_SUFFIX +
+        r"|0b[01_]+" + INT_SUFFIX + r"|\d[\d_]*" + INT_SUFFIX + r")")
+
+
+LIT = BYTE      # old name
+
+
+def int_value(text):
+    """value of any Rust spelling of an unsigned integer or byte literal: b'x' b'\n' b'\\' b'\'' b'\0' b'\x0c' 12 12u8 0x0C 0x0C_u8
+    0o14 0b1100 1_024"""
+    tok = text.strip()
     m = re.fullmatch(r"b'(\\x[0-9a-fA-F]{2}|\\.|[^'\\])'", tok)
     if m:
         c = m.group(1)
         if c.startswith("\\x"):
             return int(c[2:], 16)
         if c.startswith("\\"):
+            if c[1] not in ESC:
+                raise ValueError("escape " + tok)
             return ESC[c[1]]
         return ord(c)
-    tok = re.sub(r"(_?(u8|u16|u32|u64|usize|i8|i16|i32|i64|isize))$", "", tok).replace("_", "")
-    if tok.lower().startswith("0x"):
+    if not re.fullmatch(BYTE, tok):
+        raise ValueError("not an integer literal: %r" % tok[:40])
+    tok = re.sub(INT_SUFFIX + "$", "", tok).replace("_", "")
+    low = tok.lower()
+    if low.startswith("0x"):
         return int(tok, 16)
-    if tok.lower().startswith("0b"):
-        return int(tok, 2)
+    if low.startswith("0o"):
+        return int(tok[2:], 8)
+    if low.startswith("0b"):
+        return int(tok[2:], 2)
     return int(tok)
 
 
-LIT = r"(?:b'(?:\\x[0-9a-fA-F]{2}|\\.|[^'\\])'|0x[0-9a-fA-F_]+|\d[\d_]*)"
+def byte_value(text):
+    v = int_value(text)
+    if not 0 <= v <= 255:
+        raise ValueError("not a u8: %r" % text)
+    return v
 
 
-def lits(s):
-    return [lit(t) for t in re.findall(LIT, s)]
-
-
-def alt_set(pat):
-    """'0 | 9 | b'a' ..= b'c'' -> sorted list of byte values"""
-    vals = []
-    for part in pat.split("|"):
-        part = part.strip()
-        if not part:
-            continue
-        m = re.fullmatch(r"(" + LIT + r")\s*\.\.=\s*(" + LIT + r")", part)
-        if m:
-            vals.extend(range(lit(m.group(1)), lit(m.group(2)) + 1))
+def str_bytes(tok):
+    """bytes of a "…" / b"…" literal token (escapes \\n \\r \\t \\0 \\\\ \\' \\" \\xNN)"""
+    m = re.fullmatch(r'b?"((?:\\.|[^"\\])*)"', tok.strip(), flags=re.S)
+    if not m:
+        raise ValueError("not a string literal: %r" % tok[:40])
+    s, out, i = m.group(1), [], 0
+    while i < len(s):
+        if s[i] == "\\":
+            if s[i + 1] == "x":
+                out.append(int(s[i + 2:i + 4], 16))
+                i += 4
+                continue
+            if s[i + 1] not in ESC:
+                raise ValueError("escape in " + tok)
+            out.append(ESC[s[i + 1]])
+            i += 2
         else:
-            vals.append(lit(part))
-    return vals
+            out += list(s[i].encode("utf-8"))
+            i += 1
+    return out
+
+
+def const_expr(src, name):
+    """initialiser text of `const NAME: T = <expr>;` / `static NAME …` anywhere in src (None if there is none)"""
+    m = re.search(r"\b(?:const|static)\s+" + re.escape(name) + r"\s*:\s*(?:[^=;\[]|\[[^\]]*\])+?=\s*", src)
+    if not m:
+        return None
+    i, depth = m.end(), 0
+    j = i
+    while j < len(src):
+        k = skip_literal(src, j)
+        if k is not None:
+            j = k
+            continue
+        if src[j] in OPEN:
+            depth += 1
+        elif src[j] in CLOSE:
+            depth -= 1
+        elif src[j] == ";" and depth == 0:
+            return src[i:j].strip()
+        j += 1
+    return None
+
+
+def let_expr(body, name):
+    """initialiser text of the (first) `let [mut] name [: T] = <expr>;` in body, None if there is none"""
+    m = re.search(r"\blet\s+(?:mut\s+)?" + re.escape(name) + r"\s*(?::\s*[^=;]+?)?=\s*", body)
+    if not m:
+        return None
+    i, depth, j = m.end(), 0, m.end()
+    while j < len(body):
+        k = skip_literal(body, j)
+        if k is not None:
+            j = k
+            continue
+        if body[j] in OPEN:
+            depth += 1
+        elif body[j] in CLOSE:
+            depth -= 1
+        elif body[j] == ";" and depth == 0:
+            return body[i:j].strip()
+        j += 1
+    return None
+
+
+def deref(expr, body="", src="", depth=3):
+    """follow a bare identifier to the `let` (in body) or `const` (in body, then src) that defines it; other expressions
+    are returned unchanged.  Used where the extractor needs the literal behind `let tmp = …;` / `const NAME = …;`."""
+    e = strip_parens(expr)
+    while depth > 0 and re.fullmatch(r"[A-Za-z_]\w*", e):
+        v = let_expr(body, e) or const_expr(body, e) or const_expr(src, e)
+        if v is None:
+            break
+        e = strip_parens(v)
+        depth -= 1
+    return e
+
+
+def is_alias(expr, target, body, depth=3):
+    """is `expr` the variable `target`, possibly through casts (`x as usize`) and `let tmp = x as usize;` hops in body"""
+    e = strip_parens(expr)
+    while depth >= 0:
+        e = strip_parens(re.sub(r"\s+as\s+\w+$", "", e).strip())
+        if e == target:
+            return True
+        if not re.fullmatch(r"[A-Za-z_]\w*", e):
+            return False
+        v = let_expr(body, e)
+        if v is None:
+            return False
+        e = strip_parens(v)
+        depth -= 1
+    return False
+
+
+def byte_string(expr, body="", src=""):
+    """the bytes denoted by b"…", "…", &[A, B], [A, B], [V; N], *b"…", b"…".to_vec(), "…".as_bytes(), or a const / let
+    bound to one of these"""
+    e = deref(expr, body, src)
+    e = re.sub(r"^[&*]\s*", "", e).strip()
+    e = re.sub(r"\.(?:to_vec|as_bytes|as_slice|as_ref|to_owned|iter|into)\(\)$", "", e).strip()
+    e = deref(e, body, src)
+    e = re.sub(r"^[&*]\s*", "", e).strip()
+    if re.fullmatch(r'b?"(?:\\.|[^"\\])*"', e, flags=re.S):
+        return str_bytes(e)
+    if e.startswith("[") and close_of(e, 0) == len(e) - 1:
+        inner = e[1:-1]
+        rep = split_top(inner, ";")
+        if len(rep) == 2:
+            return [byte_value(deref(rep[0], body, src))] * int_value(deref(rep[1], body, src))
+        return [byte_value(deref(t, body, src)) for t in split_top(inner, ",")]
+    raise ValueError("not a byte string: %r" % expr[:60])
+
+
+def pattern_set(pat, body="", src=""):
+    """the set of bytes matched by a pattern  A | B..=C | NAME | _"""
+    out = set()
+    for part in split_top(strip_parens(pat), "|"):
+        part = strip_parens(part)
+        if part == "_":
+            return set(range(256))
+        m = re.fullmatch(r"(.+?)\s*\.\.=\s*(.+)", part)
+        if m:
+            out |= set(range(byte_value(deref(m.group(1), body, src)), byte_value(deref(m.group(2), body, src)) + 1))
+        else:
+            out.add(byte_value(deref(part, body, src)))
+    return out
+
+
+ALL_BYTES = frozenset(range(256))
+ASCII_CLASSES = {
+    "is_ascii_digit": range(48, 58),
+    "is_ascii_hexdigit": list(range(48, 58)) + list(range(65, 71)) + list(range(97, 103)),
+    "is_ascii_whitespace": [9, 10, 12, 13, 32],
+    "is_ascii_uppercase": range(65, 91),
+    "is_ascii_lowercase": range(97, 123),
+    "is_ascii_alphabetic": list(range(65, 91)) + list(range(97, 123)),
+    "is_ascii_alphanumeric": list(range(48, 58)) + list(range(65, 91)) + list(range(97, 123)),
+    "is_ascii": range(0, 128),
+}
+
+
+class Arm:
+    """one arm of a match: pats = top-level alternatives of the pattern, guard = text after `if` (or None),
+    expr = the arm's expression with an enclosing block stripped"""
+    def __init__(self, pat, expr):
+        self.pattern, self.guard = pat.strip(), None
+        i, depth = 0, 0
+        while i < len(pat):                       # the guard starts at the top-level keyword `if`
+            k = skip_literal(pat, i)
+            if k is not None:
+                i = k
+                continue
+            if pat[i] in OPEN:
+                depth += 1
+            elif pat[i] in CLOSE:
+                depth -= 1
+            elif depth == 0 and re.compile(r"(?<![\w])if\s").match(pat, i) and i > 0:
+                self.pattern, self.guard = pat[:i].strip(), pat[i + 2:].strip()
+                break
+            i += 1
+        self.pats = split_top(self.pattern, "|")
+        self.expr = strip_block(expr)
+        self.raw = expr.strip()
+
+    def __iter__(self):                     # (patterns, guard, expression)
+        return iter((self.pats, self.guard, self.expr))
+
+    def __repr__(self):
+        return "Arm(%r if %r => %r)" % (self.pats, self.guard, self.expr[:40])
+
+
+def _arms_of_block(inner):
+    """arms of the text between the braces of a `match`"""
+    arms, i, n = [], 0, len(inner)
+    while i < n:
+        # pattern: up to the top-level `=>`
+        depth, j = 0, i
+        while j < n:
+            k = skip_literal(inner, j)
+            if k is not None:
+                j = k
+                continue
+            c = inner[j]
+            if c in OPEN:
+                depth += 1
+            elif c in CLOSE:
+                depth -= 1
+            elif depth == 0 and inner.startswith("=>", j):
+                break
+            j += 1
+        if j >= n:
+            break
+        pat = inner[i:j].strip()
+        k = j + 2
+        while k < n and inner[k].isspace():
+            k += 1
+        if k < n and inner[k] == "{":
+            e = close_of(inner, k)
+            expr = inner[k:e + 1]
+            e += 1
+        else:
+            depth, e = 0, k
+            blocklike = bool(re.match(r"(match|if|loop|while|for|unsafe)\b", inner[k:]))
+            while e < n:
+                kk = skip_literal(inner, e)
+                if kk is not None:
+                    e = kk
+                    continue
+                c = inner[e]
+                if c in OPEN:
+                    depth += 1
+                elif c in CLOSE:
+                    depth -= 1
+                    if blocklike and c == "}" and depth == 0 and not re.match(r"\s*(else\b|\.|\?)", inner[e + 1:]):
+                        e += 1
+                        break
+                elif c == "," and depth == 0:
+                    break
+                e += 1
+            expr = inner[k:e]
+        while e < n and (inner[e].isspace() or inner[e] == ","):
+            e += 1
+        if pat:
+            arms.append(Arm(pat, expr))
+        i = e
+    return arms
+
+
+def _if_let_arms(s, i):
+    """s[i:] starts with `if let PAT = SCRUT {A} [else {B} | else if let …]` -> (arms, scrutinee, end index)"""
+    m = re.compile(r"if\s+let\s+").match(s, i)
+    # pattern up to the top-level '='
+    j, depth = m.end(), 0
+    while j < len(s):
+        k = skip_literal(s, j)
+        if k is not None:
+            j = k
+            continue
+        if s[j] in OPEN:
+            depth += 1
+        elif s[j] in CLOSE:
+            depth -= 1
+        elif s[j] == "=" and depth == 0 and s[j + 1] != "=":
+            break
+        j += 1
+    pat = s[m.end():j].strip()
+    # scrutinee up to the top-level '{'
+    k, depth = j + 1, 0
+    while k < len(s):
+        kk = skip_literal(s, k)
+        if kk is not None:
+            k = kk
+            continue
+        if s[k] == "{" and depth == 0:
+            break
+        if s[k] in OPEN:
+            depth += 1
+        elif s[k] in CLOSE:
+            depth -= 1
+        k += 1
+    scrut = s[j + 1:k].strip()
+    e = close_of(s, k)
+    arms = [Arm(pat, s[k:e + 1])]
+    end = e + 1
+    me = re.compile(r"\s*else\s*").match(s, end)
+    if me:
+        if s.startswith("{", me.end()):
+            e2 = close_of(s, me.end())
+            arms.append(Arm("_", s[me.end():e2 + 1]))
+            end = e2 + 1
+        elif re.compile(r"if\s+let\b").match(s, me.end()):
+            more, scrut2, end = _if_let_arms(s, me.end())
+            if scrut2 == scrut:
+                arms += more
+            else:
+                arms.append(Arm("_", s[me.end():end]))
+    else:
+        arms.append(Arm("_", "{}"))
+    return arms, scrut, end
+
+
+def match_arms(body, scrutinee=None):
+    """Arms of a match, independent of arm order conventions, trailing commas and block vs expression arms.
+       scrutinee=None : `body` is the text between the braces of a match;
+       scrutinee=regex: the first `match <scrutinee> { … }` in body — or the first `if let PAT = <scrutinee> { A } else { B }`
+                        chain, normalised to the arms [PAT => A, _ => B] — whichever comes first.
+    Each arm is an Arm (iterable as (patterns, guard, expression))."""
+    if scrutinee is None:
+        return _arms_of_block(body)
+    best = None
+    for m in re.finditer(r"\bmatch\s+(?:" + scrutinee + r")\s*\{", body):
+        best = ("match", m)
+        break
+    for m in re.finditer(r"\bif\s+let\s+", body):
+        try:
+            arms, scrut, end = _if_let_arms(body, m.start())
+        except (KeyError, IndexError, AttributeError):
+            continue
+        if re.fullmatch(scrutinee, scrut) and (best is None or m.start() < best[1].start()):
+            return arms
+    if best is None:
+        raise KeyError("no match / if let on " + scrutinee)
+    m = best[1]
+    o = m.end() - 1
+    return _arms_of_block(body[o + 1:close_of(body, o)])
+
+
+def fn_params(src, name):
+    """names of the parameters of fn name (self excluded)"""
+    m = re.search(r"\bfn\s+" + re.escape(name) + r"\s*(?:<[^>]*>)?\s*\(", src)
+    if not m:
+        raise KeyError("fn " + name)
+    o = m.end() - 1
+    out = []
+    for p in split_top(src[o + 1:close_of(src, o)], ","):
+        mm = re.match(r"(?:mut\s+)?(\w+)\s*:", p)
+        if mm:
+            out.append(mm.group(1))
+    return out
+
+
+def byte_set(expr, var=None, src="", _depth=1, body=""):
+    """The set of bytes (frozenset of 0..255) that a predicate over ONE byte variable accepts.  Understands
+         matches!(v, A | B..=C)            match v { A | B => true, _ => false }      v == A || v == B      v != A && …
+         [A, B].contains(&v)               b"…".contains(&v)      (A..=B).contains(&v)     NAME.contains(&v)  (const / let)
+         !(…)   (…)   a block `{ … }` whose value is one of these, `return …;`
+         helper(v)  — ONE level of call into a fn of `src` (the same file) is followed.
+    `var`: the variable's name if known (else the first identifier in variable position binds it; every later test must be
+    on the same variable).  Raises ValueError on anything it does not understand — never guesses."""
+    st = {"var": var}
+
+    def isvar(t):
+        t = strip_parens(t)
+        t = re.sub(r"^[&*]\s*", "", t).strip()
+        if not re.fullmatch(r"[A-Za-z_]\w*", t) or re.fullmatch(r"[A-Z][A-Z0-9_]*", t):
+            return False
+        if st["var"] is None:
+            st["var"] = t
+        return st["var"] == t
+
+    def ev(e):
+        e = strip_parens(strip_block(e))
+        e = re.sub(r"^return\s+", "", e).rstrip(";").strip()
+        e = strip_parens(e)
+        parts = split_top(e, "||")
+        if len(parts) > 1:
+            out = set()
+            for p in parts:
+                out |= ev(p)
+            return out
+        parts = split_top(e, "&&")
+        if len(parts) > 1:
+            out = set(ALL_BYTES)
+            for p in parts:
+                out &= ev(p)
+            return out
+        if e.startswith("!"):
+            return set(ALL_BYTES) - ev(e[1:])
+        if e == "true":
+            return set(ALL_BYTES)
+        if e == "false":
+            return set()
+        m = re.match(r"matches!\s*\(", e)
+        if m and close_of(e, m.end() - 1) == len(e) - 1:
+            args = split_top(e[m.end():-1], ",")
+            if len(args) == 2 and isvar(args[0]):
+                return pattern_set(args[1], body, src)
+            raise ValueError("matches! on something else: %r" % e[:60])
+        m = re.match(r"match\s+([&*]?\s*\w+)\s*\{", e)
+        if m and close_of(e, m.end() - 1) == len(e) - 1 and isvar(m.group(1)):
+            acc, seen = set(), set()
+            for arm in _arms_of_block(e[m.end():-1]):
+                if arm.guard is not None:
+                    raise ValueError("guarded arm in a byte predicate")
+                ps = pattern_set(arm.pattern, body, src) - seen
+                v = arm.expr.strip()
+                if v == "true":
+                    acc |= ps
+                elif v != "false":
+                    raise ValueError("arm value %r" % v[:30])
+                seen |= ps
+            if seen != set(ALL_BYTES):
+                raise ValueError("match without catch-all")
+            return acc
+        m = re.fullmatch(r"(.+?)\s*(==|!=)\s*(.+)", e, flags=re.S)
+        if m and "contains" not in e:
+            a, op, b = m.group(1), m.group(2), m.group(3)
+            try:
+                val, other = byte_value(deref(b, body, src)), a
+            except ValueError:
+                val, other = byte_value(deref(a, body, src)), b
+            if not isvar(other):
+                raise ValueError("comparison of something else: %r" % e[:60])
+            return {val} if op == "==" else set(ALL_BYTES) - {val}
+        m = re.fullmatch(r"([^<>=]+?)\s*(<=|>=|<|>)\s*([^<>=]+)", e, flags=re.S)
+        if m:
+            a, op, b = m.group(1), m.group(2), m.group(3)
+            try:
+                val, other = int_value(deref(b, body, src)), a
+            except ValueError:
+                val, other = int_value(deref(a, body, src)), b
+                op = {"<": ">", ">": "<", "<=": ">=", ">=": "<="}[op]
+            if not isvar(other):
+                raise ValueError("comparison of something else: %r" % e[:60])
+            test = {"<": lambda x: x < val, "<=": lambda x: x <= val, ">": lambda x: x > val, ">=": lambda x: x >= val}[op]
+            return set(x for x in ALL_BYTES if test(x))
+        m = re.fullmatch(r"(.+)\.contains\(\s*(&?\s*\w+)\s*\)", e, flags=re.S)
+        if m and isvar(m.group(2)):
+            recv = strip_parens(m.group(1))
+            mm = re.fullmatch(r"(.+?)\s*\.\.=\s*(.+)", recv)
+            if mm:
+                return set(range(byte_value(deref(mm.group(1), body, src)), byte_value(deref(mm.group(2), body, src)) + 1))
+            return set(byte_string(recv, body, src))
+        m = re.fullmatch(r"(\*?\w+)\s*\.\s*(is_ascii_\w+)\s*\(\s*\)", e)
+        if m and m.group(2) in ASCII_CLASSES and isvar(m.group(1)):
+            return set(ASCII_CLASSES[m.group(2)])
+        m = re.fullmatch(r"(?:self\s*\.\s*|Self\s*::\s*)?(\w+)\s*\(\s*([&*]?\s*\w+)\s*\)", e)
+        if m and _depth > 0 and src and isvar(m.group(2)):
+            fb = fn_body(src, m.group(1))
+            ps = fn_params(src, m.group(1))
+            if len(ps) != 1:
+                raise ValueError("helper %s takes %d parameters" % (m.group(1), len(ps)))
+            return set(byte_set(fb, ps[0], src, _depth - 1, body=fb))
+        raise ValueError("byte predicate not understood: %r" % e[:80])
+
+    return frozenset(ev(expr))
+
+
+def ordered(vals, house=()):
+    """Presentation order of a generated SET or key-indexed TABLE: the elements that occur in `house` (the order in which
+    Generated.v has always listed this table — kept so that the file does not change when disjoint arms or alternatives are
+    merely reordered in the source) come first in that order, every other element after them in ascending order.  Which
+    elements there are comes from the source alone; duplicates are dropped."""
+    vals = list(dict.fromkeys(vals))
+    pos = {h: i for i, h in enumerate(house)}
+    known = sorted((v for v in vals if v in pos), key=lambda v: pos[v])
+    return known + sorted(v for v in vals if v not in pos)
+
+
+def ordered_by_key(rows, house=(), key=lambda r: r[0]):
+    """like ordered() for table rows: sorted by their key; two rows with the same key are an error (the arms would not be
+    disjoint, so their order would matter)"""
+    keys = [key(r) for r in rows]
+    if len(set(keys)) != len(keys):
+        raise ValueError("duplicate keys: %r" % (keys,))
+    rank = {k: i for i, k in enumerate(ordered(keys, house))}
+    return sorted(rows, key=lambda r: rank[key(r)])
+
+
+def callees(body, src, exclude=()):
+    """[(name, body)] of the fns defined in src that `body` calls by bare name (one level; used by search_deep)"""
+    out, seen = [], set(exclude)
+    for m in re.finditer(r"(?<![\w.:!])([a-z_]\w*)\s*\(", body):
+        n = m.group(1)
+        if n in seen or n in ("if", "while", "match", "for", "loop", "return", "fn", "Some", "Ok", "Err"):
+            continue
+        seen.add(n)
+        if re.search(r"\bfn\s+" + re.escape(n) + r"\s*(?:<[^>]*>)?\s*\(", src):
+            try:
+                out.append((n, fn_body(src, n)))
+            except KeyError:
+                pass
+    return out
+
+
+def search_deep(rx, body, src, flags=0):
+    """re.search(rx, body); when the body has no match, the bodies of the private helper fns (of src) that it calls are
+    tried — ONE level.  A predicate / step that was extracted into a small helper is still found; a change inside the
+    helper still changes the value."""
+    m = re.search(rx, body, flags)
+    if m:
+        return m
+    found = [mm for mm in (re.search(rx, b, flags) for _, b in callees(body, src)) if mm]
+    if len(found) > 1 and len(set(mm.groups() for mm in found)) > 1:
+        raise ValueError("helpers disagree on " + rx[:40])
+    return found[0] if found else None
+
+
+def min_consts(body, operand=r"[\w.]+(?:\(\))?"):
+    """[(operand text, N)] of every `std::cmp::min(E, N)`, `min(N, E)`, `E.min(N)` with a literal N"""
+    out = []
+    for m in re.finditer(r"(?:std::cmp::|cmp::)?\bmin\(\s*(" + operand + r")\s*,\s*(" + BYTE + r")\s*\)", body):
+        out.append((m.group(1), int_value(m.group(2)), m.start()))
+    for m in re.finditer(r"(?:std::cmp::|cmp::)?\bmin\(\s*(" + BYTE + r")\s*,\s*(" + operand + r")\s*\)", body):
+        out.append((m.group(2), int_value(m.group(1)), m.start()))
+    for m in re.finditer(r"(" + operand + r"|\([^()]*\))\s*\.min\(\s*(" + BYTE + r")\s*\)", body):
+        out.append((strip_parens(m.group(1)), int_value(m.group(2)), m.start()))
+    for m in re.finditer(r"(?<!\w)(?<!\w\.)(" + BYTE + r")\s*\.min\(\s*(" + operand + r")\s*\)", body):
+        out.append((m.group(2), int_value(m.group(1)), m.start()))
+    out.sort(key=lambda t: t[2])
+    return [(a, b) for a, b, _ in out]
+
+
+def closures(body, method):
+    """[(parameter text, expression text)] of every `.method([args,] |params| expr)` call in body"""
+    out = []
+    for m in re.finditer(r"\.\s*" + method + r"\s*\(", body):
+        o = m.end() - 1
+        inner = body[o + 1:close_of(body, o)]
+        # the first top-level `|` opens the parameter list
+        i, depth, bars = 0, 0, []
+        while i < len(inner) and len(bars) < 2:
+            k = skip_literal(inner, i)
+            if k is not None:
+                i = k
+                continue
+            c = inner[i]
+            if c in OPEN:
+                depth += 1
+            elif c in CLOSE:
+                depth -= 1
+            elif c == "|" and (depth == 0 or bars):
+                bars.append(i)
+            i += 1
+        if len(bars) < 2:
+            continue
+        lead = inner[:bars[0]].strip()
+        if lead and not lead.endswith(",") and lead != "move":
+            continue                                    # `a | b` inside an ordinary argument, not a closure
+        out.append((inner[bars[0] + 1:bars[1]].strip(), inner[bars[1] + 1:].strip()))
+    return out
+
+
+def closure_var(params):
+    """the identifier bound by a one-parameter closure head: `&b`, `b`, `&mut b`, `b: u8`"""
+    m = re.fullmatch(r"&?\s*(?:mut\s+)?&?\s*(\w+)\s*(?::[^|]*)?", params.strip())
+    if not m:
+        raise ValueError("closure parameter %r" % params)
+    return m.group(1)
+
+
+def affine(expr, var):
+    """k such that expr == var + k, for an expression made of `var` (optionally `var as T`) and integer / byte literals joined
+    by + and - in any order (`b'a' - 10 + c`, `c - b'a' + 0xa`); raises otherwise"""
+    e = strip_parens(expr)
+    terms, sign, cur, depth, i = [], 1, "", 0, 0
+    while i < len(e):
+        k = skip_literal(e, i)
+        if k is not None:
+            cur += e[i:k]
+            i = k
+            continue
+        c = e[i]
+        if c in OPEN:
+            depth += 1
+        elif c in CLOSE:
+            depth -= 1
+        if c in "+-" and depth == 0 and cur.strip():
+            terms.append((sign, cur.strip()))
+            sign, cur = (1 if c == "+" else -1), ""
+        elif c in "+-" and depth == 0:
+            sign = sign if c == "+" else -sign
+        else:
+            cur += c
+        i += 1
+    if cur.strip():
+        terms.append((sign, cur.strip()))
+    k, nvar = 0, 0
+    for sg, t in terms:
+        t = strip_parens(t)
+        t = re.sub(r"\s+as\s+\w+$", "", t).strip()
+        t = strip_parens(t)
+        if t == var or t == "*" + var:
+            nvar += sg
+        else:
+            k += sg * int_value(t)
+    if nvar != 1:
+        raise ValueError("not %s + constant: %r" % (var, expr[:50]))
+    return k
+
+
+def range_arms(fnbody, param=None):
+    """[(lo, hi, k)] for the arms `[v @] LO ..= HI => [Some(] v' + k [)]` of the (first) match in fnbody, where v' is the
+    binding v or the scrutinee; other arms are ignored"""
+    m = re.search(r"\bmatch\s+(\*?\w+)\s*\{", fnbody)
+    if not m:
+        raise KeyError("match")
+    scrut = m.group(1).lstrip("*")
+    out = []
+    for arm in match_arms(fnbody, re.escape(m.group(1))):
+        mm = re.fullmatch(r"(?:(\w+)\s*@\s*)?(" + BYTE + r")\s*\.\.=\s*(" + BYTE + r")", arm.pattern)
+        if not mm or arm.guard:
+            continue
+        v = mm.group(1) or scrut
+        e = arm.expr
+        ms = re.fullmatch(r"Some\s*\((.*)\)", e, flags=re.S)
+        if ms:
+            e = ms.group(1)
+        out.append((int_value(mm.group(2)), int_value(mm.group(3)), affine(e, v)))
+    return out
+
+
+def pred_fn_set(src, name):
+    """the set of bytes accepted by the one-parameter predicate `fn name(b: u8) -> bool` of src"""
+    b = fn_body(src, name)
+    (v,) = fn_params(src, name)
+    return byte_set(b, v, src, body=b)
+
+
+def option_pred_set(body, src=""):
+    """the set of bytes accepted by the predicate applied to an Option<&u8> in body: `.map(|b| P(b)).unwrap_or(false)`,
+    `.map_or(false, |b| P(b))`, `.is_some_and(|b| P(b))`, `.filter(|b| P(b)).is_some()`"""
+    found = []
+    for method in ("map", "map_or", "is_some_and", "filter"):
+        for params, expr in closures(body, method):
+            found.append((method, params, expr))
+    if len(found) != 1:
+        raise ValueError("expected one predicate closure, found %d" % len(found))
+    method, params, expr = found[0]
+    if method == "map" and not re.search(r"\.unwrap_or\(\s*false\s*\)", body):
+        raise ValueError(".map(..) without .unwrap_or(false)")
+    if method == "filter" and not re.search(r"\.is_some\(\)", body):
+        raise ValueError(".filter(..) without .is_some()")
+    return byte_set(expr, closure_var(params), src, body=body)
+
+
+def hex_nibble_tables(b):
+    """HexStringLexer::next_hex_byte: for every `match <c> { LO..=HI => c - LO + ADD, … }`: ([(lo, hi, add)], [(END literal,
+    arm expression)] of the single-literal arms, name of c)"""
+    out = []
+    for m in re.finditer(r"\bmatch\s+(\w+)\s*\{", b):
+        o = m.end() - 1
+        rows, singles = [], []
+        for arm in match_arms(b[o + 1:close_of(b, o)]):
+            mm = re.fullmatch(r"(" + BYTE + r")\s*\.\.=\s*(" + BYTE + r")", arm.pattern)
+            if mm and arm.guard is None:
+                lo = int_value(mm.group(1))
+                add = affine(arm.expr, m.group(1)) + lo
+                if add < 0:
+                    raise ValueError("arm subtracts more than its range start")
+                rows.append((lo, int_value(mm.group(2)), add))
+            elif re.fullmatch(BYTE, arm.pattern) and arm.guard is None:
+                singles.append((int_value(arm.pattern), arm.expr))
+        if rows:
+            out.append((rows, singles, m.group(1)))
+    return out
+
+
+def variant_name(pat):
+    """`Enum::Variant`, `Enum::Variant(..)`, `Enum::Variant { .. }`, `&Enum::Variant(_)` -> 'Variant' (None for anything else)"""
+    m = re.fullmatch(r"&?\s*(?:ref\s+)?(?:\w+::)*(\w+)\s*(?:\(.*\)|\{.*\})?", pat.strip(), flags=re.S)
+    return m.group(1) if m and pat.strip() != "_" else None
+
+
+def variant_pred(expr, variants):
+    """{variant: bool} for a predicate over an enum value written as `match v { A | B(_) => true, …, _ => false }` or
+    `[!]matches!(v, A | B(_))` (the two spellings of the same test); `variants` lists all variants of the enum.
+    Also returns the scrutinee text: (map, scrutinee)."""
+    e = strip_parens(strip_block(expr))
+    neg = False
+    while e.startswith("!"):
+        neg, e = not neg, strip_parens(e[1:])
+    out = {}
+    m = re.match(r"matches!\s*\(", e)
+    if m and close_of(e, m.end() - 1) == len(e) - 1:
+        args = split_top(e[m.end():-1], ",")
+        if len(args) != 2:
+            raise ValueError("matches! with a guard")
+        names = [variant_name(p) for p in split_top(args[1], "|")]
+        if None in names:
+            raise ValueError("pattern in %r" % e[:50])
+        for v in variants:
+            out[v] = (v in names) != neg
+        return out, args[0].strip()
+    m = re.match(r"match\s+([^{]+?)\s*\{", e)
+    if m and close_of(e, m.end() - 1) == len(e) - 1:
+        for arm in _arms_of_block(e[m.end():-1]):
+            if arm.guard is not None or arm.expr not in ("true", "false"):
+                raise ValueError("arm %r" % arm)
+            val = (arm.expr == "true") != neg
+            for p in arm.pats:
+                if p == "_" or re.fullmatch(r"[a-z_]\w*", p):
+                    for v in variants:
+                        out.setdefault(v, val)
+                    return out, m.group(1)
+                n = variant_name(p)
+                if n is None or n not in variants:
+                    raise ValueError("pattern %r" % p)
+                out.setdefault(n, val)
+        if set(out) != set(variants):
+            raise ValueError("match is not exhaustive")
+        return out, m.group(1)
+    raise ValueError("variant predicate not understood: %r" % e[:60])
 
 
 class Gen:
@@ -177,91 +984,91 @@ def main():
 
     # ---- enc.rs ------------------------------------------------------------
     def nibble():
-        b = fn_body(enc, "decode_nibble")
-        out = []
-        for m in re.finditer(r"(\w+)\s*@\s*(" + LIT + r")\s*\.\.=\s*(" + LIT + r")\s*=>\s*Some\(\s*\1\s*-\s*(" + LIT + r")\s*(?:\+\s*(" + LIT + r"))?\s*\)", b):
-            lo, hi, sub, add = lit(m.group(2)), lit(m.group(3)), lit(m.group(4)), lit(m.group(5)) if m.group(5) else 0
-            if sub != lo:
-                raise ValueError("decode_nibble arm subtracts %d, range starts %d" % (sub, lo))
-            out.append((lo, hi, add))
-        if not out:
-            raise ValueError("no arms")
-        return ctuples(out)
+        # arms  v @ LO ..= HI => Some(v - LO + ADD): (lo, hi, add)
+        out = [(lo, hi, k + lo) for lo, hi, k in range_arms(fn_body(enc, "decode_nibble"))]
+        if not out or any(add < 0 for _, _, add in out):
+            raise ValueError("no arms / an arm subtracts more than its range start")
+        return ctuples(ordered_by_key(out, [48, 97, 65]))
     g.attempt([("nibble_ranges", "list (N * N * N)")], "enc.rs:decode_nibble", nibble)
 
     def enc_nibble():
-        b = fn_body(enc, "encode_nibble")
-        out = []
-        for m in re.finditer(r"(" + LIT + r")\s*\.\.=\s*(" + LIT + r")\s*=>\s*([^,\n]+)", b):
-            lo, hi = lit(m.group(1)), lit(m.group(2))
-            expr = m.group(3)
-            # forms: b'0'+ c   |   b'a' - 10 + c
-            mm = re.fullmatch(r"\s*(" + LIT + r")\s*(?:-\s*(" + LIT + r")\s*)?\+\s*c\s*", expr)
-            if not mm:
-                raise ValueError("encode_nibble arm " + expr)
-            base = lit(mm.group(1)) - (lit(mm.group(2)) if mm.group(2) else 0)
-            # value = base + c ; our table computes c - lo + b0
-            out.append((lo, hi, base + lo))
+        # arms  LO ..= HI => BASE + c: our table computes c - lo + b0 with b0 = BASE + lo
+        out = [(lo, hi, k + lo) for lo, hi, k in range_arms(fn_body(enc, "encode_nibble"))]
         if not out:
             raise ValueError("no arms")
-        return ctuples(out)
+        return ctuples(ordered_by_key(out))
     g.attempt([("enc_nibble_ranges", "list (N * N * N)")], "enc.rs:encode_nibble", enc_nibble)
+
+    def dropped_by_filter(b):
+        """bytes that the `.filter(|b| …)` of a decoder drops"""
+        (params, expr), = closures(b, "filter")
+        return sorted(ALL_BYTES - byte_set(expr, closure_var(params), enc))
+
+    def stop_byte(b):
+        """the single byte at which `.take_while(|b| b != X)` stops"""
+        (params, expr), = closures(b, "take_while")
+        (x,) = ALL_BYTES - byte_set(expr, closure_var(params), enc)
+        return x
 
     def hexws():
         b = fn_body(enc, "decode_hex")
-        m = re.search(r"filter\(\|&b\|\s*!matches!\(b,\s*([^)]*)\)\)", b)
-        e = re.search(r"take_while\(\|&b\|\s*b\s*!=\s*(" + LIT + r")\)", b)
-        return cl(alt_set(m.group(1))), str(lit(e.group(1)))
+        return cl(dropped_by_filter(b)), str(stop_byte(b))
     g.attempt([("hexfilter_ws", "list N"), ("hex_eod", "N")], "enc.rs:decode_hex", hexws)
 
     def sym85():
-        b = fn_body(enc, "sym_85")
-        m = re.search(r"(\w+)\s*@\s*(" + LIT + r")\s*\.\.=\s*(" + LIT + r")\s*=>\s*Some\(\s*\1\s*-\s*(" + LIT + r")\s*\)", b)
-        if lit(m.group(4)) != lit(m.group(2)):
+        (lo, hi, k), = range_arms(fn_body(enc, "sym_85"))
+        if k != -lo:
             raise ValueError("sym_85 offset differs from range start")
-        return str(lit(m.group(2))), str(lit(m.group(3)))
+        return str(lo), str(hi)
     g.attempt([("sym85_lo", "N"), ("sym85_hi", "N")], "enc.rs:sym_85", sym85)
 
     def a85():
         b = fn_body(enc, "decode_85")
-        ws = re.search(r"filter\(\|&b\|\s*!matches!\(b,\s*([^)]*)\)\)", b)
-        til = re.search(r"take_while\(\|&b\|\s*b\s*!=\s*(" + LIT + r")\)", b)
-        z = re.search(r"Some\((" + LIT + r")\)\s*=>\s*out\.extend_from_slice\(&\[0;\s*4\]\)", b)
-        pad = re.search(r"None\s*=>\s*break\s*\(0,\s*\[(" + LIT + r");\s*5\]\)", b)
+        z = re.search(r"Some\(\s*(" + BYTE + r")\s*\)\s*=>\s*\w+\.extend_from_slice\(\s*&\[\s*0\s*;\s*4\s*\]\s*\)", b)
+        pad = re.search(r"None\s*=>\s*break\s*\(\s*0\s*,\s*\[\s*(" + BYTE + r")\s*;\s*5\s*\]\s*\)", b)
         pads = set()
-        for mm in re.finditer(r"break\s*\(([1-4]),\s*\[([^\]]*)\]\)", b):
-            pads |= set(lit(t) for t in re.findall(r"b'(?:\\.|[^'\\])'", mm.group(2)))
-        if pads != {lit(pad.group(1))}:
+        for mm in re.finditer(r"break\s*\(\s*([1-4])\s*,\s*\[([^\]]*)\]\s*\)", b):
+            pads |= set(int_value(t) for t in split_top(mm.group(2), ",") if re.fullmatch(BYTE, t))
+        if pads != {int_value(pad.group(1))}:
             raise ValueError("tail padding bytes differ: %r" % pads)
-        gt = re.search(r"\(Some\((" + LIT + r")\),\s*None\)\s*=>\s*Ok\(out\)", b)
-        return cl(alt_set(ws.group(1))), str(lit(til.group(1))), str(lit(z.group(1))), str(lit(pad.group(1))), str(lit(gt.group(1)))
+        gt = re.search(r"\(\s*Some\(\s*(" + BYTE + r")\s*\)\s*,\s*None\s*\)\s*=>\s*Ok\(\s*\w+\s*\)", b)
+        return (cl(dropped_by_filter(b)), str(stop_byte(b)), str(int_value(z.group(1))), str(int_value(pad.group(1))),
+                str(int_value(gt.group(1))))
     g.attempt([("a85_ws", "list N"), ("a85_tilde", "N"), ("a85_z", "N"), ("a85_pad", "N"), ("a85_gt", "N")], "enc.rs:decode_85", a85)
 
     def rle():
         b = fn_body(enc, "run_length_decode")
-        lt = re.search(r"if\s+length\s*<\s*(\d+)", b)
-        ge = re.search(r"else\s+if\s+length\s*>=\s*(\d+)", b)
-        base = re.search(r"let\s+copy\s*=\s*(\d+)\s*-\s*length", b)
-        return lt.group(1), ge.group(1), base.group(1)
+        lt = re.search(r"\bif\s+(\w+)\s*<\s*(" + BYTE + r")\s*\{", b)
+        v = lt.group(1)                                    # the length byte, whatever it is called
+        ge = re.search(r"else\s+if\s+" + v + r"\s*>=\s*(" + BYTE + r")\s*\{", b)
+        base = None
+        for m in re.finditer(r"(" + BYTE + r")\s*-\s*(\w+)", b):
+            if is_alias(m.group(2), v, b):
+                base = m
+                break
+        return str(int_value(lt.group(2))), str(int_value(ge.group(1))), str(int_value(base.group(1)))
     g.attempt([("rle_lit_below", "N"), ("rle_rep_from", "N"), ("rle_rep_base", "N")], "enc.rs:run_length_decode", rle)
 
     def ptags():
-        variants = item_body(enc, r"pub\s+enum\s+PredictorType\s*\{", "enum PredictorType")
-        order = [m.group(1) for m in re.finditer(r"(\w+)\s*=\s*\d+", variants)]
         b = fn_body(enc, "from_u8")
         out = []
-        for m in re.finditer(r"(\d+)\s*=>\s*Ok\(PredictorType::(\w+)\)", b):
-            out.append((int(m.group(1)), ["NoFilter", "Sub", "Up", "Avg", "Paeth"].index(m.group(2))))
+        for arm in match_arms(b, r"\w+"):
+            m = re.fullmatch(r"(?:Ok\s*\(\s*)?PredictorType::(\w+)\s*\)?", arm.expr)
+            if m and arm.guard is None and all(re.fullmatch(BYTE, p) for p in arm.pats):
+                for p in arm.pats:
+                    out.append((int_value(p), ["NoFilter", "Sub", "Up", "Avg", "Paeth"].index(m.group(1))))
         if not out:
             raise ValueError("no arms")
-        return ctuples(out)
+        return ctuples(ordered_by_key(out))
     g.attempt([("predictor_tags", "list (N * N)")], "enc.rs:PredictorType::from_u8", ptags)
 
     def pngthr():
         # smallest /Predictor value that selects the PNG un-prediction, and the TIFF value
         b = fn_body(enc, "unpredict")
-        m = re.search(r"if\s+predictor\s*(>=|>)\s*(\d+)\s*\{", b)
-        t = re.search(r"else\s+if\s+predictor\s*==\s*(\d+)\s*\{", b)
+        loc = re.search(r"let\s+(\w+)\s*=\s*\w+\.predictor\s*;", b)
+        v = r"(?:%s|\w+\.predictor)" % (loc.group(1) if loc else r"\w+\.predictor")
+        m = re.search(r"if\s+" + v + r"\s*(>=|>)\s*(\d+)\s*\{", b)
+        t = re.search(r"else\s+if\s+" + v + r"\s*==\s*(\d+)\s*\{", b)
         return "%d%%Z" % (int(m.group(2)) + (1 if m.group(1) == ">" else 0)), "%d%%Z" % int(t.group(1))
     g.attempt([("png_from", "Z"), ("tiff_pred", "Z")], "enc.rs:unpredict", pngthr)
 
